@@ -8,7 +8,8 @@ from pyvc.extract import Module, get_func
 F_CP = 'atsim/potentials/config/_config_parser.py'
 F_REG = 'atsim/potentials/config/_potential_form_registry.py'
 F_EB = 'atsim/potentials/config/_eam_potential_builder.py'
-FUNCTIONS = []
+import contracts.duplicates as DU
+FUNCTIONS = [(F_CP, 'ConfigParser._pair_species_func'), (F_CP, 'ConfigParser._check_for_duplicate_pairs')]
 
 def lemmas():
     out = []
@@ -29,10 +30,8 @@ def lemmas():
                    nf1(z3.Concat(a, z3.StringVal(' '), b)) == z3.Concat(a, b), kind='lemma', function='props/C20.py', carries_property=True)
     out.append(o)
     # (2) reversed pairs
-    out.append(S('C20', F_CP, 'ConfigParser._check_for_duplicate_pairs', 'pair-in-either-order',
-                 ["for k in self._config_parser['Pair']:", 'p = self._pair_species_func(k)', 'rev_p = tuple(reversed(list(p)))',
-                  'if p in seen or rev_p in seen:\n            raise ConfigParserDuplicateEntryException', 'seen.add(p)']))
-    out.append(S('C20', F_CP, 'ConfigParser._pair_species_func', 'labels-stripped', ['species_a = species_a.strip()', 'species_b = species_b.strip()', 'return SpeciesTuple(species_a, species_b)']))
+    # (2) reversed pairs: ConfigParser._check_for_duplicate_pairs and _pair_species_func are under Engine A contracts (contracts/duplicates.py):
+    #     accepted only if no two keys name the same unordered pair of stripped labels; the duplicate error is raised only if two do
     out.append(S('C20', F_CP, 'ConfigParser.__init__', 'checked-at-construction', ['self._check_for_duplicates()']))
     x1, y1, x2, y2 = z3.Strings('x1 y1 x2 y2')
     seen_hit = z3.Or(z3.And(x2 == x1, y2 == y1), z3.And(y2 == x1, x2 == y1))       # p2 == p1 or reversed(p2) == p1
@@ -57,13 +56,20 @@ def lemmas():
         out.append(B.static_obligation('C20/_common.py::%s/is-a-ConfigurationException' % cls, 'ConfigurationException' in bases_of(cls), cls, 'atsim/potentials/config/_common.py', str(bases_of(cls))))
     return out
 
+MUTANTS = [
+    (F_CP, 'ConfigParser._check_for_duplicate_pairs', "if p in seen or rev_p in seen:", "if p in seen and rev_p in seen:", 'preserve/0'),
+    (F_CP, 'ConfigParser._check_for_duplicate_pairs', "seen.add(p)", "pass", 'preserve/0'),
+    (F_CP, 'ConfigParser._check_for_duplicate_pairs', "rev_p = tuple(reversed(list(p)))", "rev_p = tuple(list(p))", 'preserve/0'),
+    (F_CP, 'ConfigParser._pair_species_func', "species_b = species_b.strip()", "species_b = species_b", 'post/second-label-stripped'),
+    (F_CP, 'ConfigParser._pair_species_func', "if len(tokens) != 2:", "if len(tokens) < 2:", 'unpack'),
+]
 MODULE_MUTANTS = [
     (F_CP, "    option = option.strip().replace(' ', '').replace('\\t', '')\n", "    option = option.strip()\n", 'optionxform'),
-    (F_CP, "        if (p in seen) or (rev_p in seen):", "        if (p in seen):", 'pair-in-either-order'),
+    (F_CP, "        if (p in seen) or (rev_p in seen):", "        if (p in seen):", '_check_for_duplicate_pairs/preserve'),
     (F_REG, "      if d.signature.label in self._potential_forms:\n        raise Potential_Form_Registry_Exception(\"The label of a [Potential-Form] entry is already in use by a table form or standard potential form: '{0}'\".format(d.signature.label))\n", "", 'label-clash'),
     (F_EB, "      if t_species in add_to:\n        raise ConfigurationException(\"Duplicate density function found for {}\".format(d.species))\n", "", 'duplicate-A->B'),
 ]
-ENGINE_B_FUNCTIONS = [(F_CP, '_RawConfigParser.optionxform'), (F_CP, 'ConfigParser._check_for_duplicate_pairs'), (F_CP, 'ConfigParser._pair_species_func'),
+ENGINE_B_FUNCTIONS = [(F_CP, '_RawConfigParser.optionxform'),
                       (F_CP, '_TableFormSection.check_for_duplicate_table_forms'), (F_REG, 'Potential_Form_Registry._build_potential_forms'),
                       (F_REG, 'Potential_Form_Registry._build_table_forms'), (F_EB, 'EAM_Potential_Builder_FS._density_to_potential_form_dict')]
 ASSUMPTIONS = ['A5: configparser.RawConfigParser(strict=True) raises DuplicateOptionError / DuplicateSectionError when two keys of a section (two section names) are equal after optionxform (validated by the oracle on the real module)',
